@@ -87,6 +87,8 @@ CHECKS = {"C03": c03}
 HIST_SCHEMAS = {
     "ReqFirst": "package main\n\ntype Rec struct {\n\tID  int64\n\tOpt *int32\n\tS   string\n\tR   []bool\n}\n",
     "OptFirst": "package main\n\ntype In struct {\n\tA *int64\n\tB []string\n}\n\ntype Rec struct {\n\tOpt *int32\n\tID  int64\n\tG   *In\n}\n",
+    # the first column is repeated: its num_values counts list elements, not rows
+    "RepFirst": "package main\n\ntype Rec struct {\n\tTags []string\n\tID   int64\n\tN    *int32\n}\n",
 }
 
 
@@ -555,6 +557,22 @@ def c08():
             c["reads"] = reads
     for p, c in big_footer:
         p.cases.append(c)
+    # conformant files of other writers (page splits per column, value-less pages at any position of a chunk, optional fields,
+    # multi-member gzip pages ...) through fragmenting sources
+    comps = export_comps(4)
+    nforeign = 0
+    for p in ok:
+        cyc = rec_cycle(export_records([(p.key, p.schema)], 2, 8, ck.seed + 5)[p.key]["recs"], ck.seed)
+        for fi in range(4 if q else 20):
+            n = 2 + fi % 3
+            fc = foreign_case(ck.rng, [next(cyc) for _ in range(n)], len(p.cols), comps, {"rgsplit": [n - 1, 1]} if fi % 2 else None)
+            for col in fc["cols"]:      # value-less pages at the end (and elsewhere) of every chunk
+                col["pages"] = [pg + [0] * (1 + fi % 3) if gi == 0 else [0] + pg for gi, pg in enumerate(col["pages"])]
+            p.cases.append({"page": 1000, "codec": "snappy", "poff": ck.rng.randrange(16), "ops": [], "foreign": fc,
+                            "reads": [{"mode": "chunk", "chunk": k} for k in (1, 2, 3, 7, 24)] + [{"mode": "chunk", "chunk": 5, "eofdata": True}] +
+                                     [{"mode": "rand", "seed": ck.seed * 31 + fi * 7 + j} for j in range(3)]})
+            nforeign += 1
+    ck.cov["foreign_files"] = nforeign
     run_programs(ok, "c08", timeout=1800)
     n = d = 0
     for p in ok:
@@ -673,6 +691,13 @@ def c09():
     # layouts: one page per chunk; three batches with up to two pages; a batch of four pages per chunk (the chain of page writers)
     ok = env_files(ck, None if not q else ["AllTypes", "Document", "Person", "BoolHeavy"], 7,
                    [LAYOUT_ONE, (2, lambda k: "a" * 3 + "w" + "a" * (k - 4) + "w" + "aw"), (1, lambda k: "a" * 4 + "w" + "aaw")])
+    # large pages (several kB of levels and values per page: code paths that switch on the size of a page), every codec
+    recs_big = export_records([(p.key, p.schema) for p in ok], 2, 12, ck.seed + 9)
+    for p in ok:
+        if p.key in ("fixed:AllTypes", "fixed:Document"):
+            cyc = rec_cycle(recs_big[p.key]["recs"], ck.seed)
+            for ci, codec in enumerate(CODECS):
+                p.cases.append({"page": 1000, "codec": codec, "poff": 2 + ci, "light": True, "ops": ops_of("a" * 700 + "w", cyc)})
     for p in ok:
         cases = []
         for c in p.cases:
@@ -1027,6 +1052,13 @@ def c07():
             lv = [1] * 13 + [(i * 7 + i // 3) % (1 << w) for i in range(8 * g)] + [0] * 9
             ops.append({"op": "dec", "w": w, "kind": "def" if g % 2 else "rep", "levels": lv, "pad": 0, "big": True,
                         "segs": [{"rle": True, "n": 13}, {"rle": False, "n": 8 * g}, {"rle": True, "n": 9}]})
+    # run headers written in a fixed, longer-than-needed varint slot (2..5 bytes for small counts), RLE and bit-packed
+    for w in (1, 2, 3, 4):
+        m = (1 << w) - 1
+        lv = [m] * 10 + [0, 0, 1, 0, m, 0, 0, 0] + [1] * 9
+        for pad in (1, 2, 3, 4):
+            ops.append({"op": "dec", "w": w, "kind": "def" if pad % 2 else "rep", "levels": lv, "pad": 0,
+                        "segs": [{"rle": True, "n": 10, "hdrpad": pad}, {"rle": False, "n": 8, "hdrpad": pad}, {"rle": True, "n": 9, "hdrpad": 4 - pad}]})
     # empty RLE runs (run length 0) at the start, in the middle and at the end of a stream
     for w in (1, 2, 3, 4):
         m = (1 << w) - 1
@@ -1730,6 +1762,12 @@ def c15():
                          "type Rec struct {\n\tID     int64   `parquet:\"id\"`\n\tAB     int32   `parquet:\"a_b\"`\n\tX1     *int64  `parquet:\"x1\"`\n\tFunc   string  `parquet:\"func\"`\n"
                          "\tLoc    *Inner  `parquet:\"loc_info\"`\n\tCamelC bool    `parquet:\"camelCase\"`\n\tUp     float32 `parquet:\"UPPER\"`\n\tMap    *bool   `parquet:\"map\"`\n"
                          "\tAbc    int32   `parquet:\"abc\"`\n\tABC2   int64   `parquet:\"aBC\"`\n}\n"))
+    # group names that are prefixes of one another, in both orders, and of the root type's name
+    progs.append(Program("fixed:PrefixNames", "package main\n\ntype HobbyInfo struct {\n\tLevel int32  `parquet:\"level\"`\n\tSince *int64 `parquet:\"since\"`\n}\n\n"
+                         "type Hobby struct {\n\tName  string `parquet:\"name\"`\n\tYears *int32  `parquet:\"years\"`\n}\n\ntype Re struct {\n\tX float64 `parquet:\"x\"`\n}\n\n"
+                         "type Hob struct {\n\tOn bool `parquet:\"on\"`\n}\n\n"
+                         "type Rec struct {\n\tID   int64      `parquet:\"id\"`\n\tInfo *HobbyInfo `parquet:\"hobby_info\"`\n\tHobby Hobby     `parquet:\"hobby\"`\n\tRe   *Re        `parquet:\"re\"`\n"
+                         "\tHob  Hob        `parquet:\"hob\"`\n\tZ    *string    `parquet:\"z\"`\n}\n"))
     build_programs(progs)
     ok = usable(progs)
     load_schemas(ok)
